@@ -8,7 +8,7 @@ import (
 	"go/ast"
 	"go/token"
 	"go/types"
-	"sort"
+	"os"
 	"strings"
 )
 
@@ -36,6 +36,7 @@ func rulesC13(c *Ctx) {
 	ruleAtomicUpdate(c, []string{"client"}, 3) // a queue rewritten from its own contents is read and written in one critical section (no lost result)
 	ruleResetForgets(c)                        // Reset forgets what was queued for the old stream, the request channel's buffer included (shared with C14): a stale request would be sent unaccounted
 	ruleErrorSinks(c)                          // the recorded errors AwaitConverged returns are complete (shared with C14)
+	ruleErrorsRecorded(c)                      // a response the client rejects (unknown id, duplicate terminal result) is recorded as a receive error and ends the receive loop (shared with C14)
 	ruleStateWriters(c, writersClient)
 }
 
@@ -52,6 +53,7 @@ func rulesC14(c *Ctx) {
 	ruleErrorsRecorded(c)
 	ruleErrorSinks(c)
 	ruleResetForgets(c)
+	ruleDoneSignal(c) // Done is signalled to the application: nothing inside the library consumes the one-slot token
 	ruleStateWriters(c, writersClient)
 	ruleLockOrder(c, "client Reset")
 	ruleLockOrder(c, "client Close")
@@ -60,7 +62,10 @@ func rulesC14(c *Ctx) {
 	ruleConvergence(c) // AwaitConverged returns the recorded send / receive errors instead of waiting or reporting success (shared with C13)
 }
 
-func ruleClearPendingTable(c *Ctx) {
+func ruleClearPendingTable(c *Ctx) { clearPendingTable(c, true) }
+
+// clearPendingTable: withTolerated adds the cell of the FIB-ack tolerance (known finding F25 of C13) as an obligation of its own.
+func clearPendingTable(c *Ctx, withTolerated bool) {
 	fi := c.need("client", "Client", "clearPendingOp")
 	if fi == nil {
 		return
@@ -138,6 +143,9 @@ func ruleClearPendingTable(c *Ctx) {
 			return "ret(" + full + ", nil)", true
 		},
 	})
+	if !withTolerated {
+		return
+	}
 	// the cell the main table leaves out, as an obligation of its own: in FIB-ack mode a RIB_PROGRAMMED for an
 	// id that is not pending is tolerated as "RIB ack after FIB ack" — for any id, also one that was never sent
 	runTable(c, tableSpec{
@@ -371,6 +379,7 @@ func ruleRequestRegistration(c *Ctx) {
 	if ap != nil {
 		ainfo := ap.Pkg.TypesInfo
 		aop := paramName(ap, 0)
+		storeTerm := recvName(ap) + ".qs.pendq.Ops[" + aop + ".Id]" // the slot written, as the function names it
 		aev := func(n ast.Node) []Event {
 			var out []Event
 			inspectNoFuncLit(n, func(m ast.Node) bool {
@@ -383,6 +392,7 @@ func ruleRequestRegistration(c *Ctx) {
 					return true
 				}
 				k := "store-other"
+				storeTerm = canonTerm(ap, as.Lhs[0])
 				if canonTerm(ap, ie.Index) == aop+".Id" {
 					if cl, isLit := unAddr(resolveLocal(ainfo, ap.Decl, as.Rhs[0])).(*ast.CompositeLit); isLit {
 						if f := compositeFields(cl); f["Op"] != nil && canonTerm(ap, f["Op"]) == aop {
@@ -399,7 +409,7 @@ func ruleRequestRegistration(c *Ctx) {
 		c.Sites += len(apaths)
 		badAdd := ""
 		nStore, nDup := 0, 0
-		dupAtom := eqAtom("nil", recvName(ap)+".qs.pendq.Ops["+aop+".Id]")
+		dupAtom := eqAtom("nil", storeTerm)
 		for _, p := range apaths {
 			rs, _ := p.EndNode.(*ast.ReturnStmt)
 			retNil := rs != nil && len(rs.Results) == 1 && isNilIdent(ainfo, rs.Results[0])
@@ -532,7 +542,7 @@ func ruleResponseHandling(c *Ctx) {
 		first := p.Events[0]
 		decided := false
 		for _, cs := range p.Conds {
-			if cs.At == 0 && cs.Expr != nil && strings.Contains(types.ExprString(cs.Expr), "> 1") && !cs.Taken {
+			if be, isBE := ast.Unparen(exprOrNil(cs.Expr)).(*ast.BinaryExpr); cs.At == 0 && isBE && isMoreThanOne(info, be) && !cs.Taken {
 				decided = true
 			}
 		}
@@ -541,20 +551,72 @@ func ruleResponseHandling(c *Ctx) {
 		}
 	}
 	c.check(bad2 == "", rule, fi.Name, "multi-kind responses are rejected before any effect", c.P.pos(fi.Decl.Pos()), fmt.Sprintf("%d paths", len(paths)), bad2)
-	// the counter counts exactly the three populated-tests
-	cnt := 0
+	// the counter counts exactly the three populated-tests: every increment of the counter compared with 1 is
+	// guarded by the test that one payload kind is present (directly, through a boolean local, or as an element
+	// of the list of such tests the counting loop ranges over)
+	m0 := paramObjs(info, fi.Decl)[0]
+	var popObj types.Object
 	ast.Inspect(fi.Decl.Body, func(n ast.Node) bool {
-		if cl, ok := n.(*ast.CompositeLit); ok {
-			if tv, ok := info.Types[cl]; ok {
-				if sl, ok := tv.Type.Underlying().(*types.Slice); ok {
-					if b, ok := sl.Elem().Underlying().(*types.Basic); ok && b.Info()&types.IsBoolean != 0 {
-						cnt = len(cl.Elts)
-					}
-				}
-			}
+		if be, ok := n.(*ast.BinaryExpr); ok && isMoreThanOne(info, be) {
+			popObj = objOfIdent(info, be.X)
 		}
 		return true
 	})
+	kinds := map[string]bool{}
+	var kindOf func(e ast.Expr, depth int)
+	kindOf = func(e ast.Expr, depth int) {
+		e = ast.Unparen(e)
+		if depth > 3 {
+			return
+		}
+		switch x := e.(type) {
+		case *ast.BinaryExpr:
+			if x.Op == token.NEQ && isNilIdent(info, x.Y) {
+				if o, p := selectorPath(info, x.X); frameArgRoot(info, fi.Decl, o) == m0 && len(p) == 1 {
+					kinds[p[0]] = true
+				}
+			}
+			if x.Op == token.GTR {
+				// len(m.Result) > 0 is not the same test (an empty list is populated); not accepted
+			}
+		case *ast.Ident:
+			v, ok := info.ObjectOf(x).(*types.Var)
+			if !ok {
+				return
+			}
+			if def := soleDefinition(info, fi.Decl, v); def != nil {
+				kindOf(def, depth+1)
+				return
+			}
+			// the value variable of a range over a list of tests
+			ast.Inspect(fi.Decl.Body, func(n ast.Node) bool {
+				if rs, ok := n.(*ast.RangeStmt); ok && rs.Value != nil && objOfIdent(info, rs.Value) == v {
+					if cl, ok := ast.Unparen(resolveLocal(info, fi.Decl, rs.X)).(*ast.CompositeLit); ok {
+						for _, el := range cl.Elts {
+							kindOf(el, depth+1)
+						}
+					}
+				}
+				return true
+			})
+		}
+	}
+	if popObj != nil {
+		ast.Inspect(fi.Decl.Body, func(n ast.Node) bool {
+			ifs, ok := n.(*ast.IfStmt)
+			if !ok || ifs.Else != nil || len(ifs.Body.List) != 1 {
+				return true
+			}
+			if inc, ok := ifs.Body.List[0].(*ast.IncDecStmt); ok && inc.Tok == token.INC && objOfIdent(info, inc.X) == popObj {
+				kindOf(ifs.Cond, 0)
+			}
+			return true
+		})
+	}
+	cnt := len(kinds)
+	if !(kinds["Result"] && kinds["ElectionId"] && kinds["SessionParamsResult"]) {
+		cnt = -cnt
+	}
 	c.check(cnt == 3, rule, fi.Name, "all three payload kinds take part in the exclusivity test", c.P.pos(fi.Decl.Pos()), "Result, ElectionId, SessionParamsResult", fmt.Sprintf("the exclusivity test counts %d payload kinds, want 3", cnt))
 }
 
@@ -564,24 +626,61 @@ func ruleConvergence(c *Ctx) {
 	ic := c.need("client", "Client", "isConverged")
 	if ic != nil {
 		info := ic.Pkg.TypesInfo
-		good := false
-		ast.Inspect(ic.Decl.Body, func(n ast.Node) bool {
-			rs, ok := n.(*ast.ReturnStmt)
-			if !ok || len(rs.Results) != 1 {
-				return true
+		// every path returns the conjunction, whatever helper it is computed in (terms are resolved through the
+		// parameter bindings of spliced-in helpers)
+		r := recvName(ic)
+		good := true
+		nret := 0
+		paths, pe := enumPaths(info, ic.Decl.Body.List, func(ast.Node) []Event { return nil })
+		if pe.overflow || len(pe.unsup) > 0 {
+			good = false
+		}
+		wantS, _ := orderAtom("len("+r+".qs.sendq)", "const:0")
+		// the pending queue's own Len() on c.qs.pendq (an impure call is named by its ordinal)
+		wantP := ""
+		for _, p := range paths {
+			rs, ok := p.EndNode.(*ast.ReturnStmt)
+			if !ok || p.End != "return" || len(rs.Results) != 1 {
+				good = false
+				continue
 			}
-			be, ok := ast.Unparen(rs.Results[0]).(*ast.BinaryExpr)
-			if !ok || be.Op != token.LAND {
-				return true
+			nret++
+			f := pe.xlatP(&p).formula(rs.Results[0])
+			for _, call := range callsIn(rs.Results[0]) {
+				if se, ok := ast.Unparen(call.Fun).(*ast.SelectorExpr); ok && se.Sel.Name == "Len" && len(call.Args) == 0 {
+					if t, _ := pe.xlatP(&p).term(se.X); t == r+".qs.pendq" {
+						if fn, ok := calleeObj(info, call).(*types.Func); ok && recvTypeName(fn) == "pendingQueue" {
+							wantP, _ = orderAtom(pe.callOrd[call], "const:0")
+						}
+					}
+				}
 			}
-			parts := []string{types.ExprString(be.X), types.ExprString(be.Y)}
-			sort.Strings(parts)
-			r := recvName(ic)
-			if parts[0] == r+".qs.pendq.Len() == 0" && parts[1] == "len("+r+".qs.sendq) == 0" {
-				good = true
+			if os.Getenv("GRIBILINT_DEBUG_CONV") != "" {
+				println("isConverged returns", fstr(f), "want", wantS, wantP)
 			}
-			return true
-		})
+			and, ok := f.(*FAnd)
+			if !ok {
+				good = false
+				continue
+			}
+			l, ok1 := and.L.(*FLit)
+			rr, ok2 := and.R.(*FLit)
+			if !ok1 || !ok2 {
+				good = false
+				continue
+			}
+			if l.Atom > rr.Atom {
+				l, rr = rr, l
+			}
+			a, b := wantS, wantP
+			if a > b {
+				a, b = b, a
+			}
+			if l.Atom != a || rr.Atom != b || l.Mask != 2 || rr.Mask != 2 {
+				good = false
+			}
+		}
+		good = good && nret > 0
 		_ = info
 		c.Sites++
 		c.check(good, rule, ic.Name, "converged ⇔ send queue empty ∧ pending queue empty", c.P.pos(ic.Decl.Pos()), "len(sendq) == 0 && pendq.Len() == 0", "isConverged is not the conjunction (nothing queued ∧ nothing pending)")
@@ -1123,17 +1222,25 @@ func ruleResetForgets(c *Ctx) {
 	}
 	assigned := map[string]bool{}
 	drained := map[string]bool{}
+	markAssigned := func(lhs []ast.Expr) {
+		for _, l := range lhs {
+			if se, ok := ast.Unparen(l).(*ast.SelectorExpr); ok {
+				if fv, ok := info.ObjectOf(se.Sel).(*types.Var); ok && fv.IsField() {
+					if tv, ok := info.Types[se.X]; ok {
+						assigned[typeName(tv.Type)+"."+fv.Name()] = true
+					}
+				}
+			}
+		}
+	}
 	ast.Inspect(fi.Decl.Body, func(n ast.Node) bool {
 		switch x := n.(type) {
 		case *ast.AssignStmt:
-			for _, l := range x.Lhs {
-				if se, ok := ast.Unparen(l).(*ast.SelectorExpr); ok {
-					if fv, ok := info.ObjectOf(se.Sel).(*types.Var); ok && fv.IsField() {
-						if tv, ok := info.Types[se.X]; ok {
-							assigned[typeName(tv.Type)+"."+fv.Name()] = true
-						}
-					}
-				}
+			markAssigned(x.Lhs)
+		case *ast.BlockStmt:
+			// `c.f = helper()` spliced in line: the frame assigns its result to the statement's left-hand side
+			if fr := inlineFrames[x]; fr != nil {
+				markAssigned(fr.Lhs)
 			}
 		case *ast.UnaryExpr:
 			if x.Op == token.ARROW {
@@ -1313,4 +1420,60 @@ func ruleErrorSinks(c *Ctx) {
 		}
 		c.check(bad == "", rule, fi.Name, "appends its argument to "+t[1]+" on every path", c.P.pos(fi.Decl.Pos()), fmt.Sprintf("%d paths", len(paths)), bad)
 	}
+}
+
+func exprOrNil(e ast.Expr) ast.Expr {
+	if e == nil {
+		return &ast.BadExpr{}
+	}
+	return e
+}
+
+// isMoreThanOne: be is `x > 1` or `x >= 2` for an integer variable x.
+func isMoreThanOne(info *types.Info, be *ast.BinaryExpr) bool {
+	if _, ok := objOfIdent(info, be.X).(*types.Var); !ok {
+		return false
+	}
+	v, ok := constInt(info, be.Y)
+	return ok && ((be.Op == token.GTR && v == 1) || (be.Op == token.GEQ && v == 2))
+}
+
+// DONE-SIGNAL — the one-slot Done channel belongs to the application: inside the client it is only written by the
+// handlers' exit notification and drained by Reset. Any other receive in the library consumes the token the
+// application is waiting for (Done is then never signalled although the stream failed).
+func ruleDoneSignal(c *Ctx) {
+	const rule = "DONE-SIGNAL"
+	fv := c.P.Field("client", "Client", "doneCh")
+	if fv == nil {
+		c.vanished(rule, "client.Client", "doneCh", "field not found")
+		return
+	}
+	var bad, recvs []string
+	n := 0
+	for _, g := range c.P.AllFuncs("client") {
+		if g.Decl.Body == nil {
+			continue
+		}
+		info := g.Pkg.TypesInfo
+		ast.Inspect(g.Decl.Body, func(m ast.Node) bool {
+			u, ok := m.(*ast.UnaryExpr)
+			if !ok || u.Op != token.ARROW {
+				return true
+			}
+			se, ok := ast.Unparen(u.X).(*ast.SelectorExpr)
+			if !ok || info.ObjectOf(se.Sel) != types.Object(fv) {
+				return true
+			}
+			n++
+			recvs = append(recvs, g.Obj.Name())
+			if g.Obj.Name() != "Reset" {
+				bad = append(bad, g.Name+" ("+c.P.pos(u.Pos())+")")
+			}
+			return true
+		})
+	}
+	c.Sites += n
+	c.check(len(bad) == 0, rule, "client.Client", "receivers of doneCh", "-", fmt.Sprintf("received from only in %v (the drain of Reset)", recvs),
+		"the Done channel is received from inside the library in "+strings.Join(bad, ", ")+": the single token that tells the application the client disconnected is consumed, Done() is never signalled")
+	c.floor(rule, "receives from doneCh (the drain in Reset)", n, 1)
 }
